@@ -340,7 +340,11 @@ fn replay_inner(path: &str) -> i32 {
         println!("not reproduced: 16 hash-key seeds, one result");
         return 0;
     }
-    let mut refs = oracle::References::new(rf.plan.key_seed, Duration::from_secs(60));
+    // a replay that has to show that an execution never finishes (or dies) does not need the full budget
+    // to do so: a real execution of a short plan takes milliseconds
+    let dies = rf.expected.as_ref().map(|e| e.component == "process-death").unwrap_or(rf.expected.is_none());
+    let budget = if dies && rf.plan.tasks.len() <= 16 { 10 } else { 60 };
+    let mut refs = oracle::References::new(rf.plan.key_seed, Duration::from_secs(budget));
     let script = match &rf.script {
         Some(s) => match decode_script(s) {
             Some(s) => Some(s),
